@@ -1,0 +1,18 @@
+//go:build verif
+
+// Contracts checked by /verif (gocv). Comment-only; compiled only with -tags verif.
+
+package exchange
+
+//@ func NewConcurrent
+//@   assigns nothing
+//@   ensures[C18] wraps-next: istype(result, *exchange.concurrencyOperator) && fresh(result) &&
+//@       cast(result, *exchange.concurrencyOperator).next == next && cast(result, *exchange.concurrencyOperator).bufferSize == bufferSize
+
+//@ func NewCoalesce
+//@   assigns nothing
+//@   ensures[C02,C11,C18] holds-operators: istype(result, *exchange.coalesceOperator) && fresh(result) &&
+//@       cast(result, *exchange.coalesceOperator).pool == pool &&
+//@       len(cast(result, *exchange.coalesceOperator).operators) == len(operators) &&
+//@       ref(cast(result, *exchange.coalesceOperator).operators) == ref(operators) &&
+//@       len(cast(result, *exchange.coalesceOperator).sampleOffsets) == len(operators)
